@@ -1,7 +1,7 @@
 (* C15 -- handles and descriptors are released when the client releases them.
    Only statements, closed by [exact]; proofs live in Proofs/Handles.v. *)
 From Coq Require Import List NArith Bool.
-From FB Require Import Model.Inodes Model.Handles Proofs.Inodes Proofs.Handles.
+From FB Require Import Model.Inodes Model.Handles Proofs.Inodes Proofs.InodesNum Proofs.Handles.
 Import ListNotations.
 Local Open Scope N_scope.
 
@@ -28,59 +28,46 @@ Theorem C15_balanced_step : forall c s o, HInv s -> next_handle s < U64MAX -> HI
 Proof. exact hstep_inv. Qed.
 Theorem C15_balanced : forall c h s,
   HInv s -> next_handle s + N.of_nat (length h) <= U64MAX ->
-  HInv (snd (hrun c s h)) /\
-  leaked (snd (hrun c s h)) = leaked s + N.of_nat (length (filter (known_d8 c) h)).
+  HInv (snd (hrun c s h)) /\ leaked (snd (hrun c s h)) = leaked s.
 Proof. exact hrun_inv. Qed.
-Theorem C15_leak_only_in_mount_get : forall c s o,
-  HInv s ->
-  leaked (snd (hstep c s o)) =
-  leaked s + match o with HDestroy root => if is_none (eff_fh (hc c) root) then 0 else 1 | _ => 0 end.
-Proof. exact leaked_only_in_import. Qed.
-
-(* ---- quiescence *)
-Definition C15_full : Prop := quiescent_full.
-(* refuted on the current tree by defect D8 (MountFds::get leaks its O_PATH probe at every
-   destroy + re-init with inode_file_handles) *)
-Theorem C15_refuted : ~ C15_full.
-Proof. exact quiescent_full_refuted. Qed.
-(* outside that class no descriptor is ever unowned beyond a fresh server's *)
-Theorem C15_partial : forall c root h,
-  1 + N.of_nat (length h) <= U64MAX -> filter (known_d8 c) h = [] ->
+(* no request ever produces a descriptor that no table entry owns (MountFds::get used to: D8, fixed) *)
+Theorem C15_no_unowned_descriptor : forall c s o, HInv s -> leaked (snd (hstep c s o)) = leaked s.
+Proof. exact leaked_const. Qed.
+Theorem C15_all_descriptors_owned : forall c root h,
+  1 + N.of_nat (length h) <= U64MAX ->
   let s := snd (hrun c (h_fresh c root) h) in
-  HInv s /\ leaked s = leaked (h_fresh c root) /\ fds s = fds_owned s + leaked (h_fresh c root).
-Proof. exact no_leak_outside_d8. Qed.
+  HInv s /\ leaked s = 0 /\ fds s = fds_owned s.
+Proof. exact all_descriptors_owned. Qed.
+
+(* ---- quiescence: full strength (it was refuted by defect D8 until the fix 872fe91, and by D9 until cecedb6).
+   Host hypothesis [wf_t]/[hop_wf]: with inode_file_handles every file of the export yields a file handle. *)
+Definition C15_full : Prop := quiescent_full.
+Theorem C15_full_holds : C15_full.
+Proof. exact quiescent_full_holds. Qed.
 Theorem C15_quiescent_tables : forall s,
   HInv s -> handles s = [] ->
   cookies s = [] /\ fds s = 2 + file_inodes (ino s) + (if mount_live s then 1 else 0) + leaked s.
 Proof. exact quiescent_tables. Qed.
-(* all handles released and all inodes forgotten: the tables and the descriptor count are a fresh
-   server's, up to the leaked descriptors.  (NoDup of the inode list is a hypothesis here: it holds
-   by construction of mset/mdel but is not carried as an invariant through Model/Inodes.v yet.) *)
-Theorem C15_quiescent_partial : forall c root s d,
-  HInv s -> handles s = [] -> NoDup (map fst (data (ino s))) ->
-  dget (ino s) ROOT_ID = Some d -> i_fh d = eff_fh (hc c) root ->
-  (forall i, i <> ROOT_ID -> dget (ino s) i = None) ->
-  mount_live s = mount_live (h_fresh c root) ->
-  cookies s = [] /\ length (data (ino s)) = 1%nat /\
-  fds s + leaked (h_fresh c root) = fds (h_fresh c root) + leaked s.
-Proof. exact quiescent_partial. Qed.
+(* the inode-side invariant (root present, keys consistent, no duplicate list entries, mount fd iff handle mode) *)
+Theorem C15_inode_invariant : forall c h s, IInv c s -> Forall (hop_wf c) h -> IInv c (snd (hrun c s h)).
+Proof. exact hrun_iinv. Qed.
 
 (* witnesses / non-vacuity *)
-Example C15_d8_witness :
-  fds (h_fresh d8_cfg d8_root) = 4 /\ leaked (h_fresh d8_cfg d8_root) = 1 /\
-  fds (snd (hrun d8_cfg (h_fresh d8_cfg d8_root) d8_hist)) = 5 /\
-  leaked (snd (hrun d8_cfg (h_fresh d8_cfg d8_root) d8_hist)) = 2 /\
+Example C15_d8_fixed_witness :
+  fds (h_fresh d8_cfg d8_root) = 3 /\ leaked (h_fresh d8_cfg d8_root) = 0 /\
+  fds (snd (hrun d8_cfg (h_fresh d8_cfg d8_root) d8_hist)) = 3 /\
+  leaked (snd (hrun d8_cfg (h_fresh d8_cfg d8_root) d8_hist)) = 0 /\
   fds_owned (snd (hrun d8_cfg (h_fresh d8_cfg d8_root) d8_hist)) = 3.
 Proof. exact d8_witness_shape. Qed.
 Example C15_nonvacuous :
   let c := mkHC d9_cfg false false in
-  filter (known_d8 c) ex15_hist = [] /\
+  wf_t (hc c) d9_root /\ Forall (hop_wf c) ex15_hist /\
   fst (hrun c (h_fresh c d9_root) ex15_hist) =
-    [HR (RIno 2); HOk (Some 1); HHost; HUnit; HCreated 2 (Some 2); HUnit; HR RUnit; HUnit] /\
+    [HR (RIno 2); HOk (Some 1); HHost; HUnit; HCreated 2 (Some 2); HUnit; HR (RErr EBADF); HR RUnit; HUnit] /\
+  handles (snd (hrun c (h_fresh c d9_root) ex15_hist)) = [] /\
   fds (snd (hrun c (h_fresh c d9_root) ex15_hist)) = fds (h_fresh c d9_root).
 Proof. exact ex15_ok. Qed.
-Example C15_fresh_inv : forall c root, HInv (h_fresh c root) /\
-  leaked (h_fresh c root) = (if is_none (eff_fh (hc c) root) then 0 else 1) /\ next_handle (h_fresh c root) = 1.
+Example C15_fresh_inv : forall c root, HInv (h_fresh c root) /\ leaked (h_fresh c root) = 0 /\ next_handle (h_fresh c root) = 1.
 Proof. exact h_fresh_inv. Qed.
 
 Print Assumptions C15_handle_table_is_ledger.
@@ -88,8 +75,8 @@ Print Assumptions C15_handle_get_iff.
 Print Assumptions C15_new_handle_fresh.
 Print Assumptions C15_balanced_step.
 Print Assumptions C15_balanced.
-Print Assumptions C15_leak_only_in_mount_get.
-Print Assumptions C15_refuted.
-Print Assumptions C15_partial.
+Print Assumptions C15_no_unowned_descriptor.
+Print Assumptions C15_all_descriptors_owned.
+Print Assumptions C15_full_holds.
 Print Assumptions C15_quiescent_tables.
-Print Assumptions C15_quiescent_partial.
+Print Assumptions C15_inode_invariant.
